@@ -1812,3 +1812,110 @@ pub fn e3_history(ctx: &Ctx, name: &str, batches: usize, per_batch: usize, st: &
     e.bound = format!("{} batches x {} distinct dynamic headers each (6 of 200 literals x {} complete code-length vectors), every batch on one fresh thread", batches, per_batch, vecs.len());
     e.exhaustive = true;
 }
+
+/// all run-length codings (RFC 1951 semantics) of `tail`, given the length `prev` that precedes it;
+/// with `over` > 0 also codings whose last run overshoots the end by 1..=over entries (malformed)
+pub fn all_rle_codings(tail: &[u8], prev: u8, over: usize) -> Vec<(Vec<(u8, u8)>, bool)> {
+    fn rec(tail: &[u8], i: usize, prev: u8, over: usize, cur: &mut Vec<(u8, u8)>, out: &mut Vec<(Vec<(u8, u8)>, bool)>) {
+        if i >= tail.len() {
+            out.push((cur.clone(), i == tail.len()));
+            return;
+        }
+        // literal
+        cur.push((tail[i], 0));
+        rec(tail, i + 1, tail[i], over, cur, out);
+        cur.pop();
+        let run_ok = |val: u8, c: usize| -> bool {
+            // entries inside the tail must equal val; entries beyond the end are the overshoot
+            (i..i + c).all(|k| k >= tail.len() || tail[k] == val) && i + c <= tail.len() + over
+        };
+        for c in 3..=6usize {
+            if run_ok(prev, c) {
+                cur.push((16, c as u8));
+                rec(tail, i + c, prev, over, cur, out);
+                cur.pop();
+            }
+        }
+        for c in 3..=10usize {
+            if run_ok(0, c) {
+                cur.push((17, c as u8));
+                rec(tail, i + c, 0, over, cur, out);
+                cur.pop();
+            }
+        }
+        for c in [11usize, 12, 138] {
+            if run_ok(0, c) {
+                cur.push((18, c as u8));
+                rec(tail, i + c, 0, over, cur, out);
+                cur.pop();
+            }
+        }
+    }
+    let mut out = Vec::new();
+    rec(tail, 0, prev, over, &mut Vec::new(), &mut out);
+    out
+}
+
+/// E3tail: for a few token lists, the head of the code length sequence in its default coding and
+/// EVERY run-length coding of the last entries (end of the literal/length lengths incl. HLIT slack, the
+/// HLIT/HDIST boundary, all distance lengths), valid ones and ones that overshoot by up to 2 entries
+pub fn e3_tails(ctx: &Ctx, name: &str, st: &mut Local, f: Sink) {
+    if !ctx.engine_on(name) {
+        return;
+    }
+    let r = |len: u16, dist: u16| Tok::Ref { len, dist, irr: false };
+    // (tokens, HLIT slack, distance lengths)
+    let cfgs: Vec<(Vec<Tok>, usize, Vec<u8>)> = vec![
+        (vec![Tok::Lit(b'a'), Tok::Lit(b'b'), Tok::Lit(b'c'), Tok::Lit(b'd'), r(4, 2), r(5, 4), r(3, 2)], 3, vec![0, 1, 0, 1]),
+        (vec![Tok::Lit(b'a'), Tok::Lit(b'b'), r(3, 1), r(4, 2)], 4, vec![1, 1]),
+        (vec![Tok::Lit(b'a'), Tok::Lit(b'b'), Tok::Lit(b'c'), r(3, 3), r(4, 4), r(5, 3)], 0, vec![0, 0, 2, 2, 2, 2]),
+        (vec![Tok::Lit(b'x'), r(3, 1), r(258, 1)], 2, vec![1, 0, 0, 0, 0, 1]),
+        (vec![Tok::Lit(b'q'), Tok::Lit(b'r')], 5, vec![0, 0, 0]),
+    ];
+    let mut idx = 0u64;
+    for (ci, (toks, slack, dl)) in cfgs.iter().enumerate() {
+        let (mut ll, _) = default_lengths(toks);
+        let mut plain = Vec::new();
+        apply_tokens(&mut plain, toks);
+        let real = ll.len();
+        ll.resize((real + slack).min(286), 0);
+        // the tail starts at the last used literal/length symbol
+        let cut = real - 1;
+        let mut tail: Vec<u8> = ll[cut..].to_vec();
+        tail.extend_from_slice(dl);
+        let prev = if cut > 0 { ll[cut - 1] } else { 0 };
+        let head = default_rle(&ll[..cut]);
+        // the default coding of the head must not end in a run that could merge with the tail; keep as is
+        for (items_tail, valid) in all_rle_codings(&tail, prev, 2) {
+            let i = idx;
+            idx += 1;
+            if ctx.sel.mine(i) {
+                let e = st.eng(name);
+                e.states += 1;
+                e.transitions += items_tail.len() as u64;
+                e.nontrivial += 1;
+            }
+            if !ctx.take(name, i) {
+                continue;
+            }
+            let mut items = head.clone();
+            items.extend_from_slice(&items_tail);
+            let clc = clc_for_items(&items);
+            let hdr = DynHeader { hlit: ll.len(), hdist: dl.len(), hclen: min_hclen(&clc), clc, items };
+            if !header_covers(&hdr, toks) {
+                continue;
+            }
+            let s = Stream { blocks: vec![Block::Dyn { toks: toks.clone(), hdr }], final_pad: 0 };
+            let bytes = serialise(&s);
+            // a distance code that is neither complete nor a single 1-bit code is rejected by zlib: the
+            // model vouches only for headers zlib can take
+            let dk = kraft(dl);
+            let zlib_ok = valid && (dk == 1 << 15 || dl.iter().filter(|&&l| l != 0).count() <= 1);
+            let case = StreamCase { stream_len: bytes.len(), plain: if zlib_ok { Some(plain.clone()) } else { None }, bytes, descr: format!("cfg{} tail coding {:?}{}", ci, items_tail, if valid { "" } else { " (overshoots)" }) };
+            deliver(ctx, name, st, i, case, f);
+        }
+    }
+    let e = st.eng(name);
+    e.bound = "5 (token list, HLIT slack, distance lengths) configurations x every run-length coding of the last literal/length entry, the slack, the HLIT/HDIST boundary and all distance lengths (codes 16/17/18 with every count), valid and overshooting by 1-2 entries".into();
+    e.exhaustive = true;
+}
